@@ -1,4 +1,4 @@
-import BiotiteModel.Proofs.C18
+import BiotiteModel.Proofs.C18Sdf
 import BiotiteModel.Gen.C18
 /-!
 # C18 — property theorems (MOL/SDF files; tables of the RDKit bridge)
@@ -15,7 +15,7 @@ def dictGet {κ ν : Type} [DecidableEq κ] (k : κ) : List (κ × ν) → Optio
   | [] => none
   | (k', v) :: rest => match dictGet k rest with
     | some r => some r
-    | none => if k' = k then some v else none
+    | none => if k = k' then some v else none
 
 /-- `{v: k for k, v in d.items()}`. -/
 def dictRev {κ ν : Type} (d : List (κ × ν)) : List (ν × κ) := d.map fun p => (p.2, p.1)
@@ -58,7 +58,10 @@ theorem C18_charge_table :
     split <;> first | rfl | simp_all [dictGet, Gen.C18.chargeMapping]
   · intro q
     unfold codeOfCharge
-    split <;> first | rfl | simp_all [dictGet, dictRev, Gen.C18.chargeMapping]
+    split
+    all_goals first | rfl | skip
+    simp_all [dictGet, dictRev, Gen.C18.chargeMapping]
+    split <;> rfl
   · intro q h1 h2
     have : q = -3 ∨ q = -2 ∨ q = -1 ∨ q = 0 ∨ q = 1 ∨ q = 2 ∨ q = 3 := by omega
     rcases this with rfl | rfl | rfl | rfl | rfl | rfl | rfl <;> rfl
@@ -101,6 +104,10 @@ theorem C18_rdkit_tables :
 
 /-! ## Version selection -/
 
+theorem isV2000Compatible_iff (a b : Nat) : isV2000Compatible a b = true ↔ a < 1000 ∧ b < 1000 := by
+  unfold isV2000Compatible v2000MaxCount
+  rw [Bool.and_eq_true, decide_eq_true_iff, decide_eq_true_iff]
+
 /-- Counts that do not fit three columns select V3000, or raise `ValueError` when V2000 was asked
 for; a V2000 table is only ever written for fewer than 1000 atoms and bonds. -/
 theorem C18_version_switch (m : Mol) (d : Nat) :
@@ -113,7 +120,7 @@ theorem C18_version_switch (m : Mol) (d : Nat) :
   refine ⟨?_, ?_, rfl, rfl, ?_⟩
   · intro h; simp [writeCtab, h]
   · intro h; simp [writeCtab, h]
-  · simp [isV2000Compatible, v2000MaxCount]
+  · exact isV2000Compatible_iff _ _
 
 /-- Whatever `write_structure_to_ctab` returns starts either with the V3000 marker line or with
 a V2000 counts line whose two counts are below 1000. -/
@@ -143,8 +150,7 @@ theorem C18_version_switch_lines (m : Mol) (d : Nat) (v : Version) (ls : List Li
     by_cases hc : isV2000Compatible m.atoms.length m.bonds.length = true
     · right
       simp only [writeCtab, hc, if_true] at h
-      have hb : m.atoms.length < 1000 ∧ m.bonds.length < 1000 := by
-        simpa [isV2000Compatible, v2000MaxCount] using hc
+      have hb : m.atoms.length < 1000 ∧ m.bonds.length < 1000 := (isV2000Compatible_iff _ _).mp hc
       exact ⟨hb.1, hb.2, h2 ls h⟩
     · left
       simp only [writeCtab, hc] at h
@@ -153,11 +159,120 @@ theorem C18_version_switch_lines (m : Mol) (d : Nat) (v : Version) (ls : List Li
     by_cases hc : isV2000Compatible m.atoms.length m.bonds.length = true
     · right
       simp only [writeCtab, hc] at h
-      have hb : m.atoms.length < 1000 ∧ m.bonds.length < 1000 := by
-        simpa [isV2000Compatible, v2000MaxCount] using hc
+      have hb : m.atoms.length < 1000 ∧ m.bonds.length < 1000 := (isV2000Compatible_iff _ _).mp hc
       exact ⟨hb.1, hb.2, h2 ls (by simpa using h)⟩
     · simp [writeCtab, hc] at h
   | v3000 => left; exact h3 ls h
   | unknown => simp [writeCtab] at h
+
+/-! ## V2000 column layout -/
+
+/-- What the writer needs from a molecule so that every field fits its columns: bond partners
+are atoms of the molecule (hence below 999 when there are fewer than 1000 atoms), element
+symbols have at most 3 characters (biotite stores 2) and every coordinate, rounded to 4 decimals,
+still has at most 5 pre-decimal digits, 4 after a minus sign.  For float32 coordinates the last
+condition is implied by the guard `number_of_integer_digits(...) <= 5` of the writer
+(`coordDigitsOk`), because a float32 at or above 8192 is a multiple of 2⁻¹⁰; it is kept
+explicit here since the model's coordinates are arbitrary rationals (see
+`C18_coord_carry_needs_float32`). -/
+def FitsV2000 (m : Mol) : Prop :=
+  (∀ a ∈ m.atoms, CoordOk a.x ∧ CoordOk a.y ∧ CoordOk a.z ∧ a.elem.length ≤ 3) ∧
+  (∀ b ∈ m.bonds, b.1 < m.atoms.length ∧ b.2.1 < m.atoms.length)
+
+/-- **Columns.**  With fewer than 1000 atoms and bonds every line of the V2000 table has its
+standard width (counts 39, atom 69, bond 21 characters), the counts and the bond partners sit in
+their 3-column fields and read back as the numbers written, and the version tag sits in
+columns 34–39. -/
+theorem C18_v2000_columns (m : Mol) (d : Nat) (ls : List Line) (h : writeV2000 m d = .ok ls)
+    (hn : m.atoms.length < 1000) (hm : m.bonds.length < 1000) (hf : FitsV2000 m) :
+    ∃ dc, codeOfBond d = some dc ∧
+    ls = [countsLineV2000 m.atoms.length m.bonds.length] ++ m.atoms.map atomLineV2000
+          ++ m.bonds.map (bondLineV2000 dc) ++ chargeLines m ++ [mEnd] ∧
+    (countsLineV2000 m.atoms.length m.bonds.length).length = 39 ∧
+    pyInt (slice 0 3 (countsLineV2000 m.atoms.length m.bonds.length)) = some (m.atoms.length : Int) ∧
+    pyInt (slice 3 6 (countsLineV2000 m.atoms.length m.bonds.length)) = some (m.bonds.length : Int) ∧
+    getVersion (countsLineV2000 m.atoms.length m.bonds.length) = "V2000".toList ∧
+    (∀ a ∈ m.atoms, (atomLineV2000 a).length = 69) ∧
+    (∀ b ∈ m.bonds, (bondLineV2000 dc b).length = 21 ∧
+        pyInt (slice 0 3 (bondLineV2000 dc b)) = some ((b.1 + 1 : Nat) : Int) ∧
+        pyInt (slice 3 6 (bondLineV2000 dc b)) = some ((b.2.1 + 1 : Nat) : Int)) := by
+  unfold writeV2000 at h
+  split at h
+  · cases h
+  · split at h
+    · cases h
+    · rename_i dc hdc
+      cases h
+      have hdc' : dc < 1000 := by
+        revert hdc; unfold codeOfBond; split <;> intro h <;> cases h <;> omega
+      obtain ⟨hr1, hr2, hr3⟩ := counts_read m.atoms.length m.bonds.length hn hm
+      refine ⟨dc, hdc, rfl, countsLineV2000_length _ _ hn hm, hr1, hr2, hr3, ?_, ?_⟩
+      · intro a ha
+        obtain ⟨hx, hy, hz, he⟩ := hf.1 a ha
+        exact atomLineV2000_length a hx hy hz he
+      · intro b hb
+        obtain ⟨hi, hj⟩ := hf.2 b hb
+        have hi' : b.1 < 999 := by omega
+        have hj' : b.2.1 < 999 := by omega
+        exact ⟨bondLineV2000_length dc b hi' hj' hdc', bond_read dc b hi' hj'⟩
+
+/-- Why the rounding condition of `FitsV2000` cannot be dropped for arbitrary reals: the float64
+value 99999.99996 passes the writer's digit guard and prints in 11 columns.  No float32 lies in
+that gap, so an `AtomArray` cannot hold such a coordinate. -/
+theorem C18_coord_carry_needs_float32 :
+    let q : Q := ⟨false, 9999999996, 100000⟩
+    (intRepr q.trunc).length ≤ maxCoordDigits ∧ (padL 10 (fmt4 q)).length = 11 := by
+  decide
+
+/-! ## `M  CHG` batching -/
+
+/-- **Charge batching.**  The non-zero charges are distributed over `M  CHG` lines of at most 8
+entries, none empty, nothing lost or repeated, order kept; every line announces its own count. -/
+theorem C18_chg_batching (m : Mol) :
+    let pairs := chargePairs 0 (m.atoms.map (·.charge))
+    let bs := batched nChargesPerLine pairs
+    bs.flatten = pairs ∧ (∀ b ∈ bs, 0 < b.length ∧ b.length ≤ 8) ∧ chargeLines m = bs.map chargeLine ∧
+    (∀ b ∈ bs, pyInt (slice 6 9 (chargeLine b)) = some (b.length : Int)) := by
+  intro pairs bs
+  obtain ⟨h1, h2⟩ := batchedF_spec nChargesPerLine (by decide) pairs.length pairs (Nat.le_refl _)
+  refine ⟨h1, h2, rfl, ?_⟩
+  intro b hb
+  have hl := (h2 b hb).2
+  have h3 := pad3_nat_length b.length (by simp [nChargesPerLine] at hl; omega)
+  have := slice_at "M  CHG".toList (padL 3 (natRepr b.length)) (b.map chargeEntry).flatten 6 9 rfl (by omega)
+  unfold chargeLine
+  simp only [← List.append_assoc] at this
+  rw [this, pyInt_natRepr]
+
+/-! ## Non-vacuity and concrete round trips (evaluated by the kernel)
+
+The general write→read theorems (`C18_ctab_roundtrip`, `C18_key_roundtrip`,
+`C18_metadata_roundtrip`, `C18_records`) are *not* proved in this file — see notes/C18.md; the
+lemmas they need that are already proved are in `Proofs/C18.lean` / `Proofs/C18Sdf.lean`.  The
+examples below run the model's writer and reader on concrete inputs covering both versions, a
+charge outside −3…3, a non-expressible bond type, a rounding tie and the column limits. -/
+
+def exMol : Mol :=
+  ⟨[⟨⟨false, 9999999, 100⟩, ⟨true, 1, 32⟩, ⟨false, 0, 1⟩, "FE".toList, -15⟩,
+    ⟨⟨true, 999999, 100⟩, ⟨false, 3, 32⟩, ⟨true, 1, 100000⟩, "N".toList, 2⟩,
+    ⟨⟨false, 5, 4⟩, ⟨false, 0, 1⟩, ⟨false, 0, 1⟩, "H".toList, 0⟩],
+   [(0, 1, 8), (1, 2, 9)]⟩
+
+example : FitsV2000 exMol ∧ coordDigitsOk exMol = true := by
+  refine ⟨⟨?_, ?_⟩, ?_⟩ <;> decide
+example : (writeCtab exMol 0 .auto).toOption.map (·.length) = some 8 := by decide
+example : (writeCtab exMol 0 .v2000).bind readCtab = .ok (exMol.rt 8) := by decide
+example : (writeCtab exMol 1 .v3000).bind readCtab = .ok (exMol.rt 1) := by decide
+example : atomLineV2000 ⟨⟨true, 1, 32⟩, ⟨false, 9999999, 100⟩, ⟨true, 999999, 100⟩, "CL".toList, -1⟩
+    = "   -0.031299999.9900-9999.9900 Cl  0  5  0  0  0  0  0  0  0  0  0  0".toList := by decide
+example : chargeLines ⟨(List.range 9).map (fun (i : Nat) => ⟨⟨false, 0, 1⟩, ⟨false, 0, 1⟩, ⟨false, 0, 1⟩, ['C'], (i : Int) - 15⟩), []⟩
+    = ["M  CHG  8   1 -15   2 -14   3 -13   4 -12   5 -11   6 -10   7  -9   8  -8".toList, "M  CHG  1   9  -7".toList] := by decide
+example : Key.deserialize (Key.serialize ⟨some 12, some "a.b_c".toList, some 7, some "x-1".toList⟩)
+    = .ok ⟨some 12, some "a.b_c".toList, some 7, some "x-1".toList⟩ := by decide
+example : Metadata.deserialize (Metadata.serialize [(⟨none, some "k".toList, none, none⟩, ["l1".toList, "l 2".toList]),
+      (⟨some 3, none, none, some [] ⟩, ["v".toList])])
+    = .ok [(⟨none, some "k".toList, none, none⟩, ["l1".toList, "l 2".toList]), (⟨some 3, none, none, some []⟩, ["v".toList])] := by decide
+example : splitRecords (joinRecords [["a".toList, "x".toList], [" b ".toList]])
+    = .ok [("a".toList, ["a".toList, "x".toList]), ("b".toList, [" b ".toList])] := by decide
 
 end BiotiteModel.C18
